@@ -290,6 +290,7 @@ func c13Gov(h *History, g *G) []EnvAction {
 
 var ProfileC13 = &Profile{
 	MultiMsg: true,
+	VaryFees: true, // "gas fees in any denom"
 	ID:       "C13", Name: "rewards", MinBlocks: 8, MaxBlocks: 40, MaxTxs: 5, Spec: specDefault, Check: CheckC13, FinalOps: c13Drain, Final: c13Final, PreBlock: c13Gov,
 	Weights: map[string]int{"amm.swap_in": 14, "amm.swap_out": 8, "amm.swap_in_2hop": 3, "amm.join": 8, "amm.exit": 6, "stablestake.bond": 5, "stablestake.unbond": 3,
 		"perpetual.open": 6, "perpetual.close": 4, "leveragelp.open": 4, "leveragelp.close": 3, "leveragelp.claim_rewards": 2,
